@@ -169,6 +169,7 @@ func (this *Hnsw) Load(r io.Reader, header bool) error {
 	}
 
 	this.len = 0
+	this.bytesSize = 0
 	// Load vertices
 	var shardSize uint32
 	var vertex *hnswVertex
